@@ -5,6 +5,7 @@ Fault enumeration over cut points: at every cut of a sampled history the state i
 (virtual clock jumps past the clean-up age); the continuation must produce the same outgoing
 events as the live twin, up to fresh identifiers."""
 import copy
+import hashlib
 import re
 
 from ..gen import colang2 as G
@@ -201,7 +202,7 @@ class C11(InterpProp):
                 out.violate("fault-raised", "%s:%s" % (fault.split(":")[0], type(e).__name__), "%s at cut %d raised %s: %s" % (fault, k, type(e).__name__, str(e)[:160]), pin={"cuts": [[k, fault]]})
                 continue
             out.evaluations += 1
-            tr.log("cut", k, fault, resB.error[0] if resB.error else None, len(got))
+            tr.log("cut", k, fault, resB.error[0] if resB.error else None, len(got), hashlib.blake2b(repr(got).encode(), digest_size=8).hexdigest())
             ci = cut_info.get(k, {})
             if fault.endswith("restore"):
                 out.probe("cut_restored")
